@@ -46,6 +46,10 @@ type c20Case struct {
 	Tamper        string    `json:"tamper"` // "" | product | extra-product | link-field | layout-field | wrong-key | missing-link | renamed-link | unsigned-layout
 	Arg           int       `json:"arg"`
 	Perturb       []string  `json:"perturb"` // match-products: add | remove | modify
+	Intermediate  string    `json:"intermediate,omitempty"` // "" | layout | cli: certificates are issued by an intermediate CA that the layout lists / that is handed to `verify -i`
+	Normalize     bool      `json:"normalize,omitempty"`    // --normalize-line-endings on every command; the final product has other line endings than the recorded file
+	FollowDirs    bool      `json:"follow_dirs,omitempty"`  // --follow-symlink-dirs with a linked directory in the project
+	RunDir        bool      `json:"run_dir,omitempty"`      // commands run in a sub-directory (run --run-dir)
 }
 
 func c20Gen(t *rapid.T) c20Case {
@@ -71,6 +75,16 @@ func c20Gen(t *rapid.T) c20Case {
 	}
 	c.Tamper = rapid.SampledFrom([]string{"", "", "", "product", "extra-product", "link-field", "layout-field", "wrong-key", "missing-link", "renamed-link", "unsigned-layout"}).Draw(t, "tamper")
 	c.Perturb = rapid.SliceOfN(rapid.SampledFrom([]string{"add", "remove", "modify"}), 0, 2).Draw(t, "perturb")
+	c.Intermediate = rapid.SampledFrom([]string{"", "layout", "cli"}).Draw(t, "intermediate")
+	c.Normalize = rapid.IntRange(0, 2).Draw(t, "normalize") == 0
+	c.FollowDirs = rapid.IntRange(0, 2).Draw(t, "followdirs") == 0
+	c.RunDir = rapid.IntRange(0, 2).Draw(t, "rundir") == 0
+	if c.Intermediate == "cli" && rapid.IntRange(0, 2).Draw(t, "dropinter") == 0 {
+		c.Tamper = "no-intermediate"
+	}
+	if c.Normalize && rapid.IntRange(0, 3).Draw(t, "dropnorm") == 0 {
+		c.Tamper = "no-normalize"
+	}
 	return c
 }
 
@@ -113,6 +127,10 @@ type c20Env struct {
 	rootCA                        *hx.TestKey
 	rootCert                      *x509.Certificate
 	rootPEM                       string
+	interCA                       *hx.TestKey
+	interCert                     *x509.Certificate
+	interPEM                      string
+	useInter                      bool
 }
 
 func (e *c20Env) keyFiles(name string) (priv, pub string) {
@@ -133,7 +151,11 @@ func (e *c20Env) leafCert(name string) (string, error) {
 	}
 	tmpl := &x509.Certificate{SerialNumber: big.NewInt(time.Now().UnixNano()), Subject: pkix.Name{CommonName: name, Organization: []string{"acme"}},
 		NotBefore: time.Now().Add(-time.Hour), NotAfter: time.Now().Add(24 * time.Hour), KeyUsage: x509.KeyUsageDigitalSignature}
-	der, err := x509.CreateCertificate(rand.Reader, tmpl, e.rootCert, k.Priv.Public(), e.rootCA.Priv)
+	issuer, issuerKey := e.rootCert, e.rootCA
+	if e.useInter {
+		issuer, issuerKey = e.interCert, e.interCA
+	}
+	der, err := x509.CreateCertificate(rand.Reader, tmpl, issuer, k.Priv.Public(), issuerKey.Priv)
 	if err != nil {
 		return "", err
 	}
@@ -156,6 +178,15 @@ func c20Setup(root string) (*c20Env, error) {
 	}
 	e.rootCert, _ = x509.ParseCertificate(der)
 	e.rootPEM = string(pem.EncodeToMemory(&pem.Block{Type: "CERTIFICATE", Bytes: der}))
+	e.interCA = hx.PoolKey("ecdsa-p384-1")
+	itmpl := &x509.Certificate{SerialNumber: big.NewInt(2), Subject: pkix.Name{CommonName: "c20 intermediate"}, NotBefore: time.Now().Add(-time.Hour), NotAfter: time.Now().Add(48 * time.Hour),
+		IsCA: true, BasicConstraintsValid: true, KeyUsage: x509.KeyUsageCertSign | x509.KeyUsageDigitalSignature}
+	ider, err := x509.CreateCertificate(rand.Reader, itmpl, e.rootCert, e.interCA.Priv.Public(), e.rootCA.Priv)
+	if err != nil {
+		return nil, err
+	}
+	e.interCert, _ = x509.ParseCertificate(ider)
+	e.interPEM = string(pem.EncodeToMemory(&pem.Block{Type: "CERTIFICATE", Bytes: ider}))
 	return e, nil
 }
 
@@ -187,6 +218,21 @@ func c20Run(c c20Case, r *hx.Rec) error {
 	}
 	emit := filepath.Join(hx.BinDir(), "emit")
 	_ = os.WriteFile(filepath.Join(e.proj, "README"), []byte("initial source\n"), 0o644)
+	e.useInter = c.Intermediate != ""
+	const mixedEndings, otherEndings = "line1\r\nline2\rline3\n", "line1\nline2\r\nline3\r\n"
+	if c.Normalize {
+		_ = os.WriteFile(filepath.Join(e.proj, "notes.txt"), []byte(mixedEndings), 0o644)
+	}
+	if c.FollowDirs || c.Arg%2 == 1 {
+		_ = os.MkdirAll(filepath.Join(root, "shared"), 0o755)
+		_ = os.WriteFile(filepath.Join(root, "shared", "lib.txt"), []byte("shared library\n"), 0o644)
+		_ = os.Symlink("../shared", filepath.Join(e.proj, "linked"))
+	}
+	workDir := e.proj
+	if c.RunDir {
+		workDir = filepath.Join(e.proj, "work")
+		_ = os.MkdirAll(workDir, 0o755)
+	}
 
 	lay := hx.MLayout{Type: "layout", Expires: hx.FarFuture, Readme: "c20", Keys: hx.MKeys{}, Steps: []hx.MStep{}, Inspect: []hx.MInspection{}}
 	var modes []string
@@ -212,6 +258,23 @@ func c20Run(c c20Case, r *hx.Rec) error {
 		if st.DSSE {
 			common = append(common, "--use-dsse")
 		}
+		if c.Normalize {
+			common = append(common, "--normalize-line-endings")
+		}
+		if c.FollowDirs {
+			common = append(common, "--follow-symlink-dirs")
+		}
+		recOpts := hx.RecOpts{Paths: []string{pathArg}, Algs: []string{"sha256"}, Normalize: c.Normalize, FollowDir: c.FollowDirs}
+		if st.Strip {
+			recOpts.Strips = []string{e.proj + "/"}
+		}
+		if c.MetaInProject {
+			recOpts.Excludes = append(recOpts.Excludes, "*.link")
+		}
+		if c.Exclude {
+			recOpts.Excludes = append(recOpts.Excludes, "*.tmp")
+		}
+		wantMaterials, wmErr := c20RefRecord(e.proj, recOpts)
 		ms := hx.MStep{Type: "step", Name: name, Threshold: 1, PubKeys: []string{}, ExpCommand: []string{}}
 		if st.Cert {
 			crt, err := e.leafCert(st.Key)
@@ -222,6 +285,10 @@ func c20Run(c c20Case, r *hx.Rec) error {
 			ms.Constraints = []hx.MConstraint{{CommonName: st.Key, DNSNames: []string{""}, Emails: []string{}, Organizations: []string{"acme"}, Roots: []string{"*"}, URIs: []string{"*"}}}
 			rk := hx.MKey{KeyID: e.rootCA.KeyID, Algs: hx.DefaultKeyIDHashAlgorithms, KeyType: "ecdsa", Scheme: "ecdsa-sha2-nistp256", Public: e.rootCA.PublicString(), Certificate: e.rootPEM}
 			lay.RootCas = hx.MKeys{rk.KeyID: rk}
+			if c.Intermediate == "layout" {
+				ik := hx.MKey{KeyID: e.interCA.KeyID, Algs: hx.DefaultKeyIDHashAlgorithms, KeyType: "ecdsa", Scheme: "ecdsa-sha2-nistp256", Public: e.interCA.PublicString(), Certificate: e.interPEM}
+				lay.IntermediateCas = hx.MKeys{ik.KeyID: ik}
+			}
 		} else {
 			ms.PubKeys = []string{k.KeyID}
 			lay.Keys[k.KeyID] = hx.MKeyFromLib(k.Pub())
@@ -241,6 +308,9 @@ func c20Run(c c20Case, r *hx.Rec) error {
 		switch st.Mode {
 		case "run":
 			args := append([]string{"run"}, common...)
+			if c.RunDir {
+				args = append(args, "-r", "work")
+			}
 			args = append(args, "-m", pathArg, "-p", pathArg, "--", emit)
 			args = append(args, ops...)
 			res = cli(e.proj, args...)
@@ -261,7 +331,7 @@ func c20Run(c c20Case, r *hx.Rec) error {
 			if _, err := os.Stat(unfinished); err != nil {
 				return fmt.Errorf("record start did not write %s (directory holds %v)", filepath.Base(unfinished), lsDir(metaDir))
 			}
-			runOps(e.proj, emit, ops)
+			runOps(workDir, emit, ops)
 			args = append([]string{"record", "stop"}, common...)
 			args = append(args, "-p", pathArg)
 			res = cli(e.proj, args...)
@@ -276,6 +346,28 @@ func c20Run(c c20Case, r *hx.Rec) error {
 		}
 		if _, err := os.Stat(linkFile); err != nil {
 			return fmt.Errorf("step %d (%s): expected link file %s, directory holds %v", i, st.Mode, filepath.Base(linkFile), lsDir(metaDir))
+		}
+		// the link holds the directory as it was before and as it is after the command (independent recorder)
+		if st.Mode != "nocommand" {
+			if _, err := os.Stat(filepath.Join(workDir, fmt.Sprintf("file-%d.txt", i))); err != nil {
+				return fmt.Errorf("step %d (%s, run directory %q): the command did not run in the requested directory: %v", i, st.Mode, strings.TrimPrefix(workDir, e.proj), err)
+			}
+		}
+		wantProducts, wpErr := c20RefRecord(e.proj, recOpts)
+		if wmErr != nil || wpErr != nil {
+			return fmt.Errorf("harness: reference recorder failed: %v / %v", wmErr, wpErr)
+		}
+		if md, err := intoto.LoadMetadata(linkFile); err != nil {
+			return fmt.Errorf("the link written by the CLI does not load: %v", err)
+		} else if lk, ok := md.GetPayload().(intoto.Link); !ok {
+			return fmt.Errorf("the link written by the CLI holds no link")
+		} else {
+			if !c13Equal(lk.Materials, wantMaterials) {
+				return fmt.Errorf("step %d (%s): recorded materials differ from the directory before the command (options %+v):\n got  %v\n want %v", i, st.Mode, recOpts, lk.Materials, wantMaterials)
+			}
+			if !c13Equal(lk.Products, wantProducts) {
+				return fmt.Errorf("step %d (%s): recorded products differ from the directory after the command (options %+v):\n got  %v\n want %v", i, st.Mode, recOpts, lk.Products, wantProducts)
+			}
 		}
 		lay.Steps = append(lay.Steps, ms)
 		modes = append(modes, st.Mode)
@@ -298,7 +390,15 @@ func c20Run(c c20Case, r *hx.Rec) error {
 			return fmt.Errorf("product %q recorded by the CLI is not a file below the project directory (strip=%v): %v", name, c.Steps[len(c.Steps)-1].Strip, err)
 		}
 		_ = os.MkdirAll(filepath.Dir(filepath.Join(e.final, name)), 0o755)
-		_ = os.WriteFile(filepath.Join(e.final, name), data, 0o644)
+		if c.Normalize && name == "notes.txt" {
+			// the product arrives with other line endings (same text)
+			_ = os.WriteFile(filepath.Join(e.final, name), []byte(otherEndings), 0o644)
+		} else {
+			_ = os.WriteFile(filepath.Join(e.final, name), data, 0o644)
+		}
+		if c.Normalize {
+			data = hx.RefNormalize(data)
+		}
 		// independent digest check of what the CLI recorded
 		if lastLink.Products[name]["sha256"] != hx.Sha256Hex(string(data)) {
 			return fmt.Errorf("product %q: recorded sha256 %s, file has %s", name, lastLink.Products[name]["sha256"], hx.Sha256Hex(string(data)))
@@ -428,6 +528,16 @@ func c20Run(c c20Case, r *hx.Rec) error {
 	case "wrong-key":
 		_, other := e.keyFiles("ed25519-3")
 		verifyKeys = other
+	case "no-intermediate":
+		tampered = false
+		for _, st := range c.Steps {
+			if st.Cert && c.Intermediate == "cli" {
+				tampered = true
+			}
+		}
+	case "no-normalize":
+		_, has := lastLink.Products["notes.txt"]
+		tampered = c.Normalize && c.Inspection && has
 	case "missing-link":
 		_ = os.Remove(victimFile)
 	case "renamed-link":
@@ -450,8 +560,32 @@ func c20Run(c c20Case, r *hx.Rec) error {
 	libDir := filepath.Join(root, "verify-lib")
 	_ = copyDir(e.final, cliDir)
 	_ = copyDir(e.final, libDir)
-	res := cli(cliDir, "verify", "-l", layoutPath, "-k", verifyKeys, "-d", linkDir)
-	libErr := c20LibVerify(layoutPath, strings.Split(verifyKeys, ","), linkDir, libDir)
+	verifyArgs := []string{"verify", "-l", layoutPath, "-k", verifyKeys, "-d", linkDir}
+	var inters [][]byte
+	if c.Intermediate == "cli" && c.Tamper != "no-intermediate" {
+		interFile := filepath.Join(e.keys, "intermediate.crt")
+		_ = os.WriteFile(interFile, []byte(e.interPEM), 0o644)
+		verifyArgs = append(verifyArgs, "-i", interFile)
+		inters = append(inters, []byte(e.interPEM))
+	}
+	verifyNorm := c.Normalize && c.Tamper != "no-normalize"
+	if verifyNorm {
+		verifyArgs = append(verifyArgs, "--normalize-line-endings")
+	}
+	res := cli(cliDir, verifyArgs...)
+	libErr := c20LibVerify(layoutPath, strings.Split(verifyKeys, ","), linkDir, libDir, inters, verifyNorm)
+	if c.Intermediate != "" {
+		r.Label("intermediate=%s", c.Intermediate)
+	}
+	if c.Normalize {
+		r.Label("normalize")
+	}
+	if c.FollowDirs {
+		r.Label("follow-dirs")
+	}
+	if c.RunDir {
+		r.Label("run-dir")
+	}
 	r.Label("steps=%d", len(c.Steps))
 	r.Label("modes=%s", strings.Join(modes, "+"))
 	r.Label("layout=%s", c.LayoutWrapper)
@@ -516,6 +650,10 @@ func c20MatchProducts(c c20Case, e *c20Env, link intoto.Link, linkPath, pristine
 	_ = copyDir(pristine, work)
 	names := sortedKeysHash(link.Products)
 	var wantOnly, wantNot, wantDiffer []string
+	if _, has := link.Products["notes.txt"]; has && c.Normalize {
+		// match-products compares raw bytes: the link holds the digest of the normalised text
+		wantDiffer = append(wantDiffer, "notes.txt")
+	}
 	for i, p := range c.Perturb {
 		switch p {
 		case "add":
@@ -533,7 +671,9 @@ func c20MatchProducts(c c20Case, e *c20Env, link intoto.Link, linkPath, pristine
 			if j >= 0 {
 				if _, err := os.Stat(filepath.Join(work, names[j])); err == nil && !contains(wantOnly, names[j]) {
 					_ = os.WriteFile(filepath.Join(work, names[j]), []byte("modified content"), 0o644)
-					wantDiffer = append(wantDiffer, names[j])
+					if !contains(wantDiffer, names[j]) {
+						wantDiffer = append(wantDiffer, names[j])
+					}
 				}
 			}
 		}
@@ -579,7 +719,18 @@ func c20MatchProducts(c c20Case, e *c20Env, link intoto.Link, linkPath, pristine
 	return nil
 }
 
-func c20LibVerify(layoutPath string, pubFiles []string, linkDir, dir string) (err error) {
+func c20RefRecord(dir string, o hx.RecOpts) (map[string]map[string]string, error) {
+	chdirLock()
+	defer chdirUnlock()
+	old, _ := os.Getwd()
+	if err := os.Chdir(dir); err != nil {
+		return nil, err
+	}
+	defer os.Chdir(old)
+	return hx.RefRecord(o)
+}
+
+func c20LibVerify(layoutPath string, pubFiles []string, linkDir, dir string, inters [][]byte, normalize bool) (err error) {
 	chdirLock()
 	defer chdirUnlock()
 	defer func() {
@@ -602,7 +753,7 @@ func c20LibVerify(layoutPath string, pubFiles []string, linkDir, dir string) (er
 		return cerr
 	}
 	defer os.Chdir(old)
-	_, err = intoto.InTotoVerify(md, keys, linkDir, "", map[string]string{}, nil, false)
+	_, err = intoto.InTotoVerify(md, keys, linkDir, "", map[string]string{}, inters, normalize)
 	return err
 }
 
@@ -682,7 +833,7 @@ func TestC20(t *testing.T) {
 	c20ProbeF17(t)
 	hx.Check[c20Case]{
 		Property: "C20", Part: "chains",
-		Rule:  "generated supply chains of 1-3 steps carried out through the built binary (run / record start+stop / run -x per step; --use-dsse, -c certificate, --lstrip-paths with absolute paths, metadata directory separate or inside the project with exclude patterns, *.tmp excludes), layout written unsigned by the harness and signed with `sign` by 1-2 keys (with and without -o), then at most one tampering (product, extra product, link field, layout field, wrong key, missing or renamed link, a supplied key that never signed) before `verify`; differential against in-process InTotoVerify; plus `sign --verify`, `key id`, `key layout` and `match-products` (perturbed directory, relative and absolute+strip) against independent expectations; non-trivial = >=2 steps or a tampering; distinct by case JSON",
+		Rule:  "generated supply chains of 1-3 steps carried out through the built binary (run / record start+stop / run -x per step; --use-dsse, -c certificate, --lstrip-paths with absolute paths, metadata directory separate or inside the project with exclude patterns, *.tmp excludes), layout written unsigned by the harness and signed with `sign` by 1-2 keys (with and without -o), then at most one tampering (product, extra product, link field, layout field, wrong key, missing or renamed link, a supplied key that never signed, `-i` intermediate left out, `--normalize-line-endings` left out) before `verify`; options: certificates issued by an intermediate CA listed in the layout or handed to `verify -i`, `--normalize-line-endings` with a product whose line endings changed, `--follow-symlink-dirs` with a linked directory, `run --run-dir`; every link's materials and products are compared with an independent recording of the directory before and after the command; differential against in-process InTotoVerify; plus `sign --verify`, `key id`, `key layout` and `match-products` (perturbed directory, relative and absolute+strip) against independent expectations; non-trivial = >=2 steps or a tampering; distinct by case JSON",
 		Cases: hx.Pick(120, 15000),
 		Gen:   c20Gen, Run: c20Run,
 	}.Execute(t)
